@@ -160,6 +160,16 @@ func (clnt *Clnt) recv() {
 		pos += n
 		for pos > 4 {
 			sz, _ := Gint32(buf)
+			if sz < 7 || sz > atomic.LoadUint32(&clnt.Msize) {
+				// not a 9P message, or larger than anything the
+				// server may send: the stream cannot be parsed
+				clnt.Lock()
+				clnt.err = &Error{"invalid message size", EINVAL}
+				_ = clnt.conn.Close()
+				clnt.Unlock()
+				goto closed
+			}
+
 			if pos < int(sz) {
 				if len(buf) < int(sz) {
 					b := make([]byte, atomic.LoadUint32(&clnt.Msize)*8)
